@@ -229,6 +229,40 @@ def tiny_reach_games():
                            transition_list=[t0, [(1, 1)], [(1, 2)], [(e1, 4), (1 - e1, 2)], [(e2, 1), (1 - e2, 2)],
                                             [(0.5, 5), (0.5, 2)]],
                            final_states=[1])
+        # the same choice one step behind a coin, at a state numbered AFTER the tiny ones: a sweep in ascending
+        # order hands it their fresh figures, so it reports the tiny value (state 0 above may still be at 0
+        # when the sweeps stop).  Player 1: tiny vs dead (equal after rounding); Player 2: tiny vs certain.
+        for owner6 in (P1, P2):
+            for rx, ry in ((3, 5), (2.5, 0)):
+                t6 = [("a", 3), ("b", 5)] if owner6 == P1 else [("a", 3), ("b", 1)]
+                # the dead sibling 5 is a Player 2 state here: conditioning leaves its list alone, so it keeps
+                # paying 40 if a transition into it wrongly survives
+                yield dict(rewards=[1, 0, 0, rx, ry, 40, 2],
+                           players=[PR, PR, PR, PR, PR, P2, owner6],
+                           transition_list=[[(0.25, 1), (0.5, 6), (0.25, 5)], [(1, 1)], [(1, 2)],
+                                            [(e1, 4), (1 - e1, 2)], [(e2, 1), (1 - e2, 2)], [("x", 2)], t6],
+                           final_states=[1])
+
+
+def dup_edge_games():
+    """Planted: a probabilistic state lists the SAME (probability, successor) tuple twice (three times), next
+    to a dead successor (5: loops, then the sink) in every position.  0: initial coin; 1: final; 2: sink;
+    3: the state with the repeated entries; 4: a rewarded live state; 5: dead."""
+    for p, k in ((0.25, 2), (0.125, 3), (0.2, 2)):
+        live = [(p, 4)] * k
+        rest = 1 - p * k
+        for pos in range(k + 1):
+            for extra in (None, (rest / 2, 1)):
+                dead_p = rest if extra is None else rest / 2
+                t3 = list(live)
+                t3.insert(pos, (dead_p, 5))
+                if extra is not None:
+                    t3.append(extra)
+                yield dict(rewards=[1, 0, 0, 2, 3, 7],
+                           players=[PR, PR, PR, PR, PR, PR],
+                           transition_list=[[(0.5, 3), (0.5, 1)], [(1, 1)], [(1, 2)], t3, [(0.5, 1), (0.5, 2)],
+                                            [(0.5, 5), (0.5, 2)]],
+                           final_states=[1])
 
 
 @st.composite
